@@ -158,12 +158,13 @@ PROPS["C10"] = {
     "runs": [run("TestC10Tx", (8000, 8), (150000, 16)), run("TestC10Buffer", (30000, 4), (500000, 8))],
     "rule": "transaction cases = (request|response side, limit 1..64, in-memory limit 1..limit, Reject|ProcessPartial, byte string whose length "
             "is biased to every threshold +-1, a partition into <=6 chunks, per chunk the entry point: slice write, reader with Len(), plain "
-            "reader), each run with the in-memory limit = limit, the drawn value, and 1 (spill) and compared with a reference model of the "
+            "reader; the body reader is consumed with small Reads, io.ReadAll, io.Copy, or a few Reads followed by io.Copy), each run with the in-memory limit = limit, the drawn value, and 1 (spill) and compared with a reference model of the "
             "statement (returned (interruption, n, err), reader contents, REQUEST_BODY/RESPONSE_BODY, data-error flag, ARGS_POST, body phase "
             "ran once); buffer cases = write/reader/read/reset scripts on the bare BodyBuffer against a byte-slice model; non-trivial = total "
             "within +-1 of the limit, a chunk straddling it, or a multi-byte stored body (spill pair); distinct = distinct case encodings",
     "essential": {"all": ["total=limit-1", "total=limit", "total=limit+1", "chunk-straddles-limit", "partial-limit-reached", "rejected",
-                          "spilled-to-disk", "side:resp", "entry:readplain", "entry:readlen", "buffer-spilled", "buffer-reset", "limit-lowered-by-ctl:req", "limit-lowered-by-ctl:resp"]},
+                          "spilled-to-disk", "side:resp", "entry:readplain", "entry:readlen", "buffer-spilled", "buffer-reset", "limit-lowered-by-ctl:req", "limit-lowered-by-ctl:resp",
+                          "read-back:copy", "read-back:head-copy", "read-back:readall"]},
     "assumptions": COMMON_ASSUME + [
         "after a refusal the connector stops feeding the body (writes after a refused write are not generated)",
         "for the plain-reader path under Reject the bytes copied before the limit was detected may stay stored (prefix, <= limit)",
